@@ -26,8 +26,11 @@
     requests never completely sent, duplicated or forged replies).
     A channel send that would block (done already full) while pendingMu is held
     is the bad state TBlocked; a nil *response dereference is TPanic.
-    [wd], [keep], [chk] are read from the source by go2coq (ClientGen:
-    sendrecv_withdraws, sendrecv_keeps_withdrawn, handleone_checks_found). *)
+    [wd], [keep], [chk], [mark] are read from the source by go2coq (ClientGen:
+    sendrecv_withdraws, sendrecv_keeps_withdrawn, handleone_checks_found,
+    recv_error_marks_dead: a ConnError reported by recv is remembered and the
+    connection counts as dead; a call that starts on a dead connection fails
+    without being sent, which the model renders as AStart followed by ASendFail). *)
 From Coq Require Import Arith List Bool.
 Import ListNotations.
 
@@ -130,7 +133,7 @@ Definition broadcast (m : mst) (i t s : nat) : mst :=
             (fun x => if existsb (fun e => snd e =? x) (pend m) then Some RFail else full m x)
             false (retired m) (dead m).
 
-Definition step (wd keep chk : bool) (m : mst) (a : action) : option mst :=
+Definition step (wd keep chk mark : bool) (m : mst) (a : action) : option mst :=
   match a with
   | AStart i t s =>
       match get (thr m) i with
@@ -178,7 +181,10 @@ Definition step (wd keep chk : bool) (m : mst) (a : action) : option mst :=
       end
   | ARecvErr i =>
       match get (thr m) i with
-      | TRecv t s => Some (broadcast m i t s)
+      | TRecv t s =>
+          let b := broadcast m i t s in
+          (* [mark]: the receiver remembers the connection error (Client.broken): the connection counts as dead *)
+          Some (if mark then mkst (thr b) (pend b) (full b) (token b) (retired b) true else b)
       | _ => None
       end
   | AFrame i t' type_ok =>
@@ -216,13 +222,13 @@ Definition step (wd keep chk : bool) (m : mst) (a : action) : option mst :=
 
 Definition init (n : nat) : mst := mkst (repeat TIdle n) [] (fun _ => None) false [] false.
 
-Fixpoint run (wd keep chk : bool) (m : mst) (tr : list action) : option mst :=
+Fixpoint run (wd keep chk mark : bool) (m : mst) (tr : list action) : option mst :=
   match tr with
   | [] => Some m
-  | a :: r => match step wd keep chk m a with Some m' => run wd keep chk m' r | None => None end
+  | a :: r => match step wd keep chk mark m a with Some m' => run wd keep chk mark m' r | None => None end
   end.
 
 (** reachable states of n calls *)
-Inductive reach (wd keep chk : bool) (n : nat) : mst -> Prop :=
-| reach_init : reach wd keep chk n (init n)
-| reach_step m a m' : reach wd keep chk n m -> step wd keep chk m a = Some m' -> reach wd keep chk n m'.
+Inductive reach (wd keep chk mark : bool) (n : nat) : mst -> Prop :=
+| reach_init : reach wd keep chk mark n (init n)
+| reach_step m a m' : reach wd keep chk mark n m -> step wd keep chk mark m a = Some m' -> reach wd keep chk mark n m'.
